@@ -342,6 +342,9 @@ const Nodes = 3
 type Env struct {
 	MR   [Nodes]*miniredis.Miniredis
 	Rds  [Nodes]*redis.Redis
+	// RdsC: the same servers through clients of type "cluster" (go-redis ClusterClient; miniredis
+	// answers CLUSTER SLOTS as a one-node cluster): cacheNode treats multi-key deletes differently there
+	RdsC [Nodes]*redis.Redis
 	Hook *Hook
 	logs *logWatch
 	seq  atomic.Int64
@@ -376,6 +379,11 @@ func GetEnv(tb Skipper) *Env {
 			// the hook) that creates it, every later redis.Redis on the address shares it
 			if !e.Rds[i].Ping() {
 				envErr = errors.New("miniredis does not answer PING")
+				return
+			}
+			e.RdsC[i] = redis.New(mr.Addr(), redis.Cluster(), redis.WithHook(e.Hook))
+			if !e.RdsC[i].Ping() {
+				envErr = errors.New("miniredis does not answer PING through a cluster-type client")
 				return
 			}
 		}
